@@ -392,17 +392,26 @@ def c06(w):
                     if n_enter != 1:
                         v.append(("extend-enter-count:%s:%s" % (c["what"], ocls(o)),
                                   "extend(%s): new doer %s entered %d times inside the call" % (c["args"], a, n_enter)))
+                    # a doer that did not choose to finish inside its enter is still alive when extend() returns
+                    if any(e[0] == a and e[1] == "exit" for e in win):
+                        k = sum(1 for e in tr[:t0] if e[0] == a and e[1] == "enter")
+                        ent = [act for ph, act in w.decisions.get(a, []) if ph == "enter"]
+                        if k < len(ent) and ent[k][0] == "ok":
+                            v.append(("extend-closed-inside-call:%s:%s" % (c["what"], ocls(o)),
+                                      "extend(%s): new doer %s was entered and exited inside the call though it did not finish in enter" % (c["args"], a)))
                     # this membership of the doer ends at its next exit (it may be removed and added again later)
                     end = next((i for i in range(t1, len(tr)) if tr[i][0] == a and tr[i][1] == "exit"), len(tr))
                     rec = [e for e in tr[t1:end] if e[0] == a and e[1] == "recur"]
-                    if rec and rec[0][3] != c["cycle"] + 1:
+                    # (a doer put into another scheduler that has its pass later in the same cycle starts there: the statement
+                    #  speaks of the scheduler that is in the middle of its pass)
+                    if rec and rec[0][3] != c["cycle"] + 1 and not (c.get("cross") and rec[0][3] == c["cycle"]):
                         v.append(("extend-first-recur:%s:%s" % ("same-cycle" if rec[0][3] == c["cycle"] else "late", ocls(o)),
                                   "doer %s added in cycle %d first recurred in cycle %d" % (a, c["cycle"], rec[0][3])))
                     cyc = [e[3] for e in rec]
                     if len(cyc) != len(set(cyc)):
                         v.append(("extend-twice-per-cycle:%s:%s" % (c["what"], ocls(o)),
                                   "doer %s added by extend(%s) recurs more than once per cycle: %s" % (a, c["args"], cyc)))
-                    if not rec and end == len(tr) and _ran_next_cycle(w, c, a):
+                    if not rec and not any(e[0] == a and e[1] == "exit" for e in win) and _ran_next_cycle(w, c, a):
                         v.append(("extend-never-recurs:" + ocls(o), "doer %s added in cycle %d did not recur in the next cycle" % (a, c["cycle"])))
                 else:
                     if n_enter:
